@@ -78,3 +78,15 @@ _t("C15",
    "independent coin ledger, again after reopening.",
    "Trusted: internal/simchain as a faithful (ideal) chain.Interface backend; the sentinel-based quiescence argument (sequential notification loop).",
    "property-based testing: rapid generated chain histories against a backend model, invariant + ledger oracle", "DESIGN.md §3 C15")
+
+_t("C11",
+   "Generated plans of committed, failing and panicking transactions (all walletdb entry points) over nested buckets, sequences and cursors are executed on a real bbolt file and "
+   "compared with a nested-map model after every transaction and after reopening; a watchdog turns a leaked writer lock into a reported violation. Two genuine cursor defects of "
+   "the pinned bbolt dependency (F14, F15) are excluded by exact predicates and reported as KNOWN-FINDING.",
+   "Trusted: internal/dbmodel (nested maps with copy-on-begin); one transaction at a time.",
+   "property-based testing + coverage-guided fuzzing: model-based (reference map) oracle", "DESIGN.md §3 C11")
+_t("C19",
+   "Generated version tables with exhaustive per-table fault positions for migration.Upgrade on a real database file, compared with a pure model (trace, stored version, "
+   "byte-for-byte dump, retry equals fault-free run), plus refusal-without-modification checks on real wtxmgr/waddrmgr namespaces whose version marker is forced above/at/below the latest.",
+   "Trusted: the pure model of 'numbers above the stored version, ascending, each once'; recursive dump comparison as the definition of unchanged data.",
+   "property-based testing + fuzzing with per-case exhaustive fault positions", "DESIGN.md §3 C19")
